@@ -191,16 +191,26 @@ def chk_offset(col, case):
     if g is None:
         return
     go = g.get_genome_context().global_offset
+    total = sum(s for _, s in genome_inc)
+    col.case({"c": "size", **case}, contract="genome size")
+    col.check(int(g.size) == total and int(go.total_size()) == total, "size:not-sum-of-included", case,
+              "got %r/%r expected %r" % (g.size, go.total_size(), total))
+    _offset_contracts(col, {"via": "genome", **case}, case, go, inc, genome_inc, sizes)
+    # the same object built directly from a {name: size} dict of the included chromosomes
+    from bionumpy.genomic_data.global_offset import GlobalOffset
+    go2 = col.guarded(lambda: GlobalOffset({n: s for n, s in genome_inc}), "GlobalOffset(dict)", case)
+    if go2 is not None:
+        _offset_contracts(col, {"via": "dict", **case}, case, go2, inc, genome_inc, sizes)
+
+
+def _offset_contracts(col, descr, case, go, inc, genome_inc, sizes):
+    import numpy as np
     off = dict(zip(inc, R.offsets([s for _, s in genome_inc])))
     total = sum(s for _, s in genome_inc)
     valid = [(n, x) for n, s in genome_inc for x in range(s)]
 
-    col.case({"c": "size", **case}, contract="genome size")
-    col.check(int(g.size) == total and int(go.total_size()) == total, "size:not-sum-of-included", case,
-              "got %r/%r expected %r" % (g.size, go.total_size(), total))
-
     # local -> global, all positions in one call and one by one
-    col.case({"c": "from_local", **case}, contract="from_local_coordinates")
+    col.case({"c": "from_local", **descr}, contract="from_local_coordinates")
     exp = [off[n] + x for n, x in valid]
     got = col.guarded(lambda: np.asarray(go.from_local_coordinates([n for n, _ in valid], np.array([x for _, x in valid]))).tolist(),
                       "from_local_coordinates", case)
@@ -208,19 +218,19 @@ def chk_offset(col, case):
         col.check(got == exp, "from_local_coordinates:not-offset-plus-local", case, "got %r expected %r" % (got, exp))
         col.check(sorted(got) == list(range(total)), "from_local_coordinates:not-bijective", case, "got %r" % (got,))
     for n, x in valid:
-        col.case({"c": "from_local1", "n": n, "x": x, **case}, contract="from_local_coordinates")
+        col.case({"c": "from_local1", "n": n, "x": x, **descr}, contract="from_local_coordinates")
         g1 = col.guarded(lambda: np.asarray(go.from_local_coordinates([n], np.array([x]))).tolist(), "from_local_coordinates", case)
         if g1 is not None:
             col.check(g1 == [off[n] + x], "from_local_coordinates:not-offset-plus-local", case, "%s:%d -> %r expected %r" % (n, x, g1, off[n] + x))
 
     # global -> local
-    col.case({"c": "to_local", **case}, contract="to_local_coordinates")
+    col.case({"c": "to_local", **descr}, contract="to_local_coordinates")
     r = col.guarded(lambda: go.to_local_coordinates(np.arange(total)), "to_local_coordinates", case)
     if r is not None:
         got = list(zip(names(r[0]), np.asarray(r[1]).tolist()))
         col.check(got == valid, "to_local_coordinates:not-inverse", case, "got %r expected %r" % (got, valid))
     for gpos, (n, x) in enumerate(valid):
-        col.case({"c": "to_local1", "g": gpos, **case}, contract="to_local_coordinates")
+        col.case({"c": "to_local1", "g": gpos, **descr}, contract="to_local_coordinates")
         r = col.guarded(lambda: go.to_local_coordinates(np.array([gpos])), "to_local_coordinates", case)
         if r is not None:
             got = list(zip(names(r[0]), np.asarray(r[1]).tolist()))
@@ -228,7 +238,7 @@ def chk_offset(col, case):
 
     # a position one past the end of a chromosome is not valid: it must not be mapped into the neighbour
     for n, s in genome_inc:
-        col.case({"c": "from_local_oob", "n": n, **case}, contract="from_local_coordinates rejects")
+        col.case({"c": "from_local_oob", "n": n, **descr}, contract="from_local_coordinates rejects")
         try:
             r = go.from_local_coordinates([n], np.array([s]))
             col.fail("from_local_coordinates:position-past-chromosome-end-accepted", case, "%s:%d -> %r" % (n, s, r))
@@ -237,7 +247,7 @@ def chk_offset(col, case):
 
     # intervals: every [a,b) inside a chromosome, all at once, there and back
     all_iv = [(n, a, b) for n, s in genome_inc for a in range(s) for b in range(a + 1, s + 1)]
-    col.case({"c": "interval_roundtrip", **case}, contract="from_local_interval/to_local_interval")
+    col.case({"c": "interval_roundtrip", **descr}, contract="from_local_interval/to_local_interval")
     gi = col.guarded(lambda: go.from_local_interval(make_intervals(all_iv)), "from_local_interval", case)
     if gi is not None:
         got = list(zip(np.asarray(gi.start).tolist(), np.asarray(gi.stop).tolist()))
@@ -247,7 +257,7 @@ def chk_offset(col, case):
         if back is not None:
             col.check(back == all_iv, "to_local_interval:not-inverse", case, "got %r expected %r" % (back, all_iv))
     # start_ends with clipping: stops beyond the end are cut at the chromosome's own end
-    col.case({"c": "start_ends_clip", **case}, contract="start_ends_from_intervals(do_clip)")
+    col.case({"c": "start_ends_clip", **descr}, contract="start_ends_from_intervals(do_clip)")
     over = [(n, a, b + 2) for n, a, b in all_iv]
     r = col.guarded(lambda: go.start_ends_from_intervals(make_intervals(over), do_clip=True), "start_ends_from_intervals:clip", case)
     if r is not None:
@@ -256,7 +266,7 @@ def chk_offset(col, case):
         col.check(got == exp, "start_ends_from_intervals:clip-not-at-own-chromosome-end", case, "got %r expected %r" % (got, exp))
     for n, s in genome_inc:
         for bad in ((n, s, s + 1), (n, s - 1, s + 1)):
-            col.case({"c": "interval_oob", "iv": bad, **case}, contract="from_local_interval rejects")
+            col.case({"c": "interval_oob", "iv": bad, **descr}, contract="from_local_interval rejects")
             try:
                 r = go.from_local_interval(make_intervals([bad]))
                 col.fail("from_local_interval:interval-past-chromosome-end-accepted", case, "%r -> %r,%r" % (bad, r.start, r.stop))
@@ -534,13 +544,13 @@ def chk_loc(col, case):
             got = col.guarded(lambda: ivs(src.get_windows(flank=f)), "get_windows:flank:" + tag, case)
             if got is not None:
                 ok = len(got) == len(kept) and all(gc == c and (a, b) in R.windows_flank(p, f, sizes[c]) for (gc, a, b), (c, p) in zip(got, kept))
-                col.check(ok, "get_windows:flank:window-not-clipped-to-own-chromosome", case, "flank=%d locations %r got %r" % (f, kept, got))
+                col.check(ok, "get_windows:flank:wrong-window", case, "flank=%d locations %r got %r" % (f, kept, got))
         for w in case["window_sizes"]:
             col.case({"c": "windows_size", "w": w, "stranded": stranded, **case}, contract="get_windows(window_size)")
             got = col.guarded(lambda: ivs(src.get_windows(window_size=w)), "get_windows:window_size:" + tag, case)
             if got is not None:
                 ok = len(got) == len(kept) and all(gc == c and (a, b) in R.windows_size(p, w, sizes[c]) for (gc, a, b), (c, p) in zip(got, kept))
-                col.check(ok, "get_windows:window_size:window-not-clipped-to-own-chromosome", case, "window_size=%d locations %r got %r" % (w, kept, got))
+                col.check(ok, "get_windows:window_size:wrong-window", case, "window_size=%d locations %r got %r" % (w, kept, got))
 
     for pname, perm in perms(len(locs), case.get("all_perms", False)):
         src = [locs[i] for i in perm]
@@ -1008,6 +1018,16 @@ def gen_cases(tier):
                         yield {"k": "fasta", "genome": genome, "filter": filt, "entries": entries, "strands": st, "width": width, "source": source}
 
 
+class Col(Collector):
+    """records the failing signature inside the stored case, so that replay() answers for THAT class only (a 'sets'
+    case evaluates some twenty contracts and some of them fail on the unchanged tree for every input)"""
+
+    def fail(self, signature, case, message):
+        if isinstance(case, dict):
+            case = dict(case, _sig=signature)
+        super().fail(signature, case, message)
+
+
 def norm(case):
     """JSON form (lists instead of tuples) so that replayed and live cases are identical"""
     import json
@@ -1016,7 +1036,7 @@ def norm(case):
 
 def run(tier="quick", seed=0):
     S = 3 if tier == "quick" else 4
-    col = Collector(PID, tier, seed,
+    col = Col(PID, tier, seed,
                     "exhaustive: genomes of 1..4 chromosomes (sizes 1..%d; names chr1/chr10 prefix pairs in both orders, '_' names ignored "
                     "or kept) x {all valid positions / intervals at once for element-wise operations; every subset of <=2 intervals per "
                     "chromosome (<=3 for one chromosome) for 1..2 chromosomes; every combination of {none, first base, last base, whole, "
@@ -1038,9 +1058,11 @@ def run(tier="quick", seed=0):
 
 
 def replay(case):
-    col = Collector(PID, "quick", 0, "replay")
+    col = Col(PID, "quick", 0, "replay")
     case = norm(case)
+    want = case.pop("_sig", None)
     col.guarded(lambda: GROUPS[case["k"]](col, case), "checker:" + case["k"], case)
-    if col.failures:
-        return False, "; ".join(f["signature"] + ": " + f["message"] for f in col.failures)
-    return True, "ok"
+    fails = [f for f in col.failures if want is None or f["signature"] == want]
+    if fails:
+        return False, "; ".join(f["signature"] + ": " + f["message"] for f in fails)
+    return True, "ok" + ("" if want is None else " (contract class %s holds on this case)" % want)
